@@ -117,6 +117,7 @@ type rec struct {
 	vals  map[int]mval
 	order []int
 	byCol map[int]bool
+	dvals map[int]lval // values of the duplicate fields (struct records only), by dup id
 }
 
 func (rc *rec) lvals() map[int]lval {
@@ -161,6 +162,13 @@ type op struct {
 	useModel     bool
 	modelKeys    []lval
 	modelSlice   bool
+	// Model(slice): the elements as handed over (modelKeys = their distinct non-zero keys): elements
+	// may repeat a key and may carry a zero key (no key: addresses no row); zeroLast = the LAST
+	// element has a zero key; the container is a slice or an array of T or *T
+	modelElems   []lval
+	zeroLast     bool
+	modelArray   bool
+	modelElemPtr bool
 	valueIsModel bool
 	conds        []cond
 	sel, omit    []nameRef
@@ -208,7 +216,12 @@ func (g *gen) nonKey() []*field {
 	return out
 }
 
-func (g *gen) seedKey() lval { return g.m.rows[g.r.Intn(len(g.m.rows))].key }
+// seedKey: the key of a seeded row, always a complete one (a struct value with a partly zero key
+// addresses rows by its non-zero parts only: not fixed by the statement).
+func (g *gen) seedKey() lval {
+	rows := g.fullRows()
+	return rows[g.r.Intn(len(rows))].key
+}
 
 func (g *gen) newKey(i int) lval {
 	if g.m.composite() {
@@ -264,7 +277,29 @@ func (g *gen) structRec(key lval) *rec {
 		}
 	}
 	g.m.setKey(rc, key)
+	for _, d := range g.m.dups {
+		if rc.dvals == nil {
+			rc.dvals = map[int]lval{}
+		}
+		switch {
+		case d.role == "shadowed-inner":
+			// shadowed by the outer field that owns the column: always left zero
+		case g.r.Chance(3, 4):
+			rc.dvals[d.id] = fresh(d.k.class, g.next()) // must never reach the column
+		}
+	}
 	return rc
+}
+
+// fullRows: the seeded rows whose key is complete (no zero part).
+func (g *gen) fullRows() []seedRow {
+	var out []seedRow
+	for _, rw := range g.m.rows {
+		if g.m.fullKey(rw.key) {
+			out = append(out, rw)
+		}
+	}
+	return out
 }
 
 func (g *gen) mapVal(f *field, ctx string, o *op) mval {
@@ -636,6 +671,22 @@ func (g *gen) target(o *op, structForm, single bool) {
 			o.modelKeys = append(o.modelKeys, g.m.rows[p[i]].key)
 		}
 		o.modelSlice = true
+		o.modelElems = append([]lval(nil), o.modelKeys...)
+		if r.Chance(1, 6) { // one key twice
+			at := r.Range(0, len(o.modelElems))
+			o.modelElems = append(o.modelElems[:at], append([]lval{o.modelKeys[r.Intn(n)]}, o.modelElems[at:]...)...)
+		}
+		if r.Chance(1, 5) { // an element without key; one time in three it is the last one
+			if r.Chance(1, 3) {
+				o.modelElems = append(o.modelElems, g.m.zeroKey())
+				o.zeroLast = true
+			} else {
+				at := r.Range(0, len(o.modelElems)-1)
+				o.modelElems = append(o.modelElems[:at], append([]lval{g.m.zeroKey()}, o.modelElems[at:]...)...)
+			}
+		}
+		o.modelArray = r.Chance(1, 4)
+		o.modelElemPtr = r.Chance(1, 3)
 		if o.tform == "model-slice+where" {
 			o.conds = append(o.conds, g.cond(&o.modelKeys[0]))
 		}
@@ -671,7 +722,7 @@ func (g *gen) writesSomething(o *op) bool {
 	for _, rc := range o.recs {
 		some := false
 		for _, f := range g.m.fields {
-			if f.ignored || f.free || f.autoUpd != "" || f.autoCre != "" || !f.canCreate {
+			if f.ignored || f.free || f.autoUpd != "" || f.autoCre != "" || !f.canCreate || f.blocked {
 				continue
 			}
 			mv, ok := rc.vals[f.idx]
@@ -856,12 +907,16 @@ func (g *gen) genOp(kind string) *op {
 			o.family = "upsert-donothing"
 		}
 		n := r.Range(1, 3)
-		p := r.Perm(len(m.rows))
+		frows := g.fullRows()
+		p := r.Perm(len(frows))
+		if n > len(frows) {
+			n = len(frows)
+		}
 		nconf := r.Range(1, n)
 		for i := 0; i < n; i++ {
 			k := g.newKey(i)
 			if i < nconf {
-				k = m.rows[p[i]].key
+				k = frows[p[i]].key
 			}
 			o.recs = append(o.recs, g.structRec(k))
 		}
@@ -946,9 +1001,13 @@ func (g *gen) genOp(kind string) *op {
 		o.saveAll = true
 		o.hooks = true
 		n := r.Range(2, 3)
-		p := r.Perm(len(m.rows))
+		frows := g.fullRows()
+		p := r.Perm(len(frows))
+		if n > len(frows) {
+			n = len(frows)
+		}
 		for i := 0; i < n; i++ {
-			k := m.rows[p[i]].key
+			k := frows[p[i]].key
 			if i > 0 && r.Chance(1, 3) {
 				k = g.newKey(i)
 			}
@@ -1030,7 +1089,7 @@ func (m *model) keyStruct(k lval) (reflect.Value, string) {
 			vals[m.pks[i].idx] = part
 		}
 	}
-	return m.newStruct(vals), "&" + m.structLit(vals)
+	return m.newStruct(vals, nil), "&" + m.structLit(vals, nil)
 }
 
 func (m *model) sliceOf(recs []*rec, elemPtr bool) (interface{}, string) {
@@ -1041,13 +1100,13 @@ func (m *model) sliceOf(recs []*rec, elemPtr bool) (interface{}, string) {
 	sl := reflect.MakeSlice(reflect.SliceOf(et), 0, len(recs))
 	var lits []string
 	for _, rc := range recs {
-		p := m.newStruct(rc.lvals())
+		p := m.newStruct(rc.lvals(), rc.dvals)
 		if elemPtr {
 			sl = reflect.Append(sl, p)
-			lits = append(lits, "&"+m.structLit(rc.lvals()))
+			lits = append(lits, "&"+m.structLit(rc.lvals(), rc.dvals))
 		} else {
 			sl = reflect.Append(sl, p.Elem())
-			lits = append(lits, m.structLit(rc.lvals())[1:])
+			lits = append(lits, m.structLit(rc.lvals(), rc.dvals)[1:])
 		}
 	}
 	sp := reflect.New(sl.Type())
@@ -1057,6 +1116,15 @@ func (m *model) sliceOf(recs []*rec, elemPtr bool) (interface{}, string) {
 		tn = "[]*T"
 	}
 	return sp.Interface(), "&" + tn + "{" + strings.Join(lits, ", ") + "}"
+}
+
+// arrayOf: the same elements as a pointer to an ARRAY ([n]T / [n]*T).
+func (m *model) arrayOf(recs []*rec, elemPtr bool) (interface{}, string) {
+	v, lit := m.sliceOf(recs, elemPtr)
+	sl := reflect.ValueOf(v).Elem()
+	ap := reflect.New(reflect.ArrayOf(sl.Len(), sl.Type().Elem()))
+	reflect.Copy(ap.Elem(), sl)
+	return ap.Interface(), strings.Replace(lit, "&[]", fmt.Sprintf("&[%d]", sl.Len()), 1)
 }
 
 func quoteAll(ns []string) string {
@@ -1074,8 +1142,8 @@ func exec(db *gorm.DB, m *model, o *op) (string, *gorm.DB) {
 	var selfPtr reflect.Value
 	var selfLit string
 	if o.valueIsModel {
-		selfPtr = m.newStruct(o.recs[0].lvals())
-		selfLit = "&" + m.structLit(o.recs[0].lvals())
+		selfPtr = m.newStruct(o.recs[0].lvals(), o.recs[0].dvals)
+		selfLit = "&" + m.structLit(o.recs[0].lvals(), o.recs[0].dvals)
 	}
 	var pkCols []clause.Column
 	var pkNames []string
@@ -1094,12 +1162,17 @@ func exec(db *gorm.DB, m *model, o *op) (string, *gorm.DB) {
 					desc += ".Model(v)"
 				case o.modelSlice:
 					var rs []*rec
-					for _, k := range o.modelKeys {
+					for _, k := range o.modelElems {
 						rc := &rec{vals: map[int]mval{}}
-						m.setKey(rc, k)
+						if !m.keyIsZero(k) {
+							m.setKey(rc, k)
+						}
 						rs = append(rs, rc)
 					}
-					v, lit := m.sliceOf(rs, false)
+					v, lit := m.sliceOf(rs, o.modelElemPtr)
+					if o.modelArray {
+						v, lit = m.arrayOf(rs, o.modelElemPtr)
+					}
 					tx = tx.Model(v)
 					desc += ".Model(" + lit + ")"
 				case len(o.modelKeys) == 1:
@@ -1201,8 +1274,8 @@ func exec(db *gorm.DB, m *model, o *op) (string, *gorm.DB) {
 	}
 	structArg := func() (interface{}, string) {
 		if len(o.recs) == 1 && o.kind != "create-slice" && o.kind != "create-batches" && o.kind != "save-slice" {
-			p := m.newStruct(o.recs[0].lvals())
-			return p.Interface(), "&" + m.structLit(o.recs[0].lvals())
+			p := m.newStruct(o.recs[0].lvals(), o.recs[0].dvals)
+			return p.Interface(), "&" + m.structLit(o.recs[0].lvals(), o.recs[0].dvals)
 		}
 		return m.sliceOf(o.recs, o.elemPtr)
 	}
@@ -1244,8 +1317,8 @@ func exec(db *gorm.DB, m *model, o *op) (string, *gorm.DB) {
 			v, lit = selfPtr.Interface(), "v"
 			desc = "v := " + selfLit + "; " + desc
 		} else {
-			p := m.newStruct(o.recs[0].lvals())
-			lit = m.structLit(o.recs[0].lvals())
+			p := m.newStruct(o.recs[0].lvals(), o.recs[0].dvals)
+			lit = m.structLit(o.recs[0].lvals(), o.recs[0].dvals)
 			if o.valPtr {
 				v, lit = p.Interface(), "&"+lit
 			} else {
